@@ -7,6 +7,8 @@ import (
 	"hash/fnv"
 	"io"
 
+	lz4 "github.com/pierrec/lz4/v4"
+
 	"verif/harness/ev"
 	"verif/harness/ref"
 )
@@ -253,7 +255,88 @@ func c09Run(c *ev.Ctx) {
 		}
 	}
 	c09CompressingReader(c)
+	c09ReusedWriter(c)
 	c.Flag("exhaustive", true)
+}
+
+// c09ReusedWriter: the same grid through ONE long-lived Writer per option-concurrency class that
+// is Reset and re-configured for every item (so each frame follows frames of other formats and
+// options); every frame must pass the same conformance oracle and equal the fresh Writer's frame.
+func c09ReusedWriter(c *ev.Ctx) {
+	ws := map[int]*lz4.Writer{}
+	grid := optionGrid(c.Thorough())
+	// visit the grid in an order that alternates formats and flags
+	order := make([]int, 0, len(grid))
+	for i := 0; i < len(grid); i++ {
+		order = append(order, (i*37)%len(grid))
+	}
+	seenIdx := map[int]bool{}
+	for n, gi := range order {
+		if seenIdx[gi] {
+			continue
+		}
+		seenIdx[gi] = true
+		o := grid[gi]
+		if !c.Mine(int64(n % 4)) && c.NShards > 1 {
+			// few shards take part: the point is the long history of one Writer
+			if c.Shard >= 4 {
+				return
+			}
+		}
+		for _, in := range inputsFor(o.BS, false, o.Legacy) {
+			if in.Len > 200000 {
+				continue
+			}
+			input := in.build()
+			w := ws[o.Conc]
+			sink := &countSink{}
+			var err error
+			func() {
+				defer func() {
+					if r := recover(); r != nil {
+						err = fmt.Errorf("panic: %v", r)
+					}
+				}()
+				if w == nil {
+					w = lz4.NewWriter(sink)
+					ws[o.Conc] = w
+				} else {
+					w.Reset(sink)
+				}
+				if err = w.Apply(o.options(len(input))...); err != nil {
+					return
+				}
+				if !o.Size {
+					if err = w.Apply(lz4.SizeOption(0)); err != nil {
+						return
+					}
+				}
+				if _, err = w.Write(input); err != nil {
+					return
+				}
+				err = w.Close()
+			}()
+			c.Eval(1)
+			c.Add("reused_writer_frames", 1)
+			it := corpusItem{o, in, delivery{Kind: "write"}}
+			if err != nil {
+				c.Report(&ev.Finding{Sig: "reused Writer fails after Reset+Apply: " + errShort(err), What: fmt.Sprintf("%s input=%+v", o, in), Case: c02Case{Item: it}})
+				delete(ws, o.Conc)
+				continue
+			}
+			if in.Len > 0 {
+				c.Distinct(1)
+			}
+			if sig, what := conformance(o, input, sink.buf.Bytes(), "reused Writer"); sig != "" {
+				c.Report(&ev.Finding{Sig: sig, What: fmt.Sprintf("%s; %s input=%+v (frame %d of this Writer)", what, o, in, n), Case: c02Case{Item: it}})
+				continue
+			}
+			fresh, ferr := produceFrame(o, input, delivery{Kind: "write"})
+			if ferr == nil && !bytes.Equal(fresh, sink.buf.Bytes()) {
+				c.Report(&ev.Finding{Sig: "a Writer reused through Reset emits other bytes than a new Writer with the same options", What: fmt.Sprintf("%s; %s input=%+v", describeDiff(sink.buf.Bytes(), fresh), o, in), Case: c02Case{Item: it}})
+			}
+		}
+	}
 }
 
 func init() {
@@ -286,7 +369,7 @@ func init() {
 	})
 	ev.Register(&ev.Driver{
 		Prop: "C09", Level: "exploration",
-		Rule: rule + "Every distinct frame, and every stream of the compressing reader over the C18 inputs/options, is parsed by the strict reference parser (magic, version 01, reserved bits, header checksum, block sizes <= maximum, block checksums over the stored bytes, end mark, content checksum, content size; legacy: plain size-prefixed blocks of 8 MiB content) and its flags are compared with the options. distinct_nontrivial = distinct frames with non-empty content.",
+		Rule:        rule + "Every distinct frame, and every stream of the compressing reader over the C18 inputs/options, is parsed by the strict reference parser (magic, version 01, reserved bits, header checksum, block sizes <= maximum, block checksums over the stored bytes, end mark, content checksum, content size; legacy: plain size-prefixed blocks of 8 MiB content) and its flags are compared with the options. distinct_nontrivial = distinct frames with non-empty content.",
 		Assumptions: []string{"ref.Parse/ref.Decode/ref.XXH32 are the specification (cross-checked against the repository's golden files in setup)"},
 		Run:         c09Run,
 		Replay: func(c *ev.Ctx) {
